@@ -61,6 +61,15 @@ type Outer struct {
 	S Inner  `json:"s"`
 }
 
+// Dep has pointer fields and interdependency rules (model kind "objdep"): a conflicts with b, c is at most 10,
+// d is required unless b is given.
+type Dep struct {
+	A *int64 `json:"a"`
+	B *int64 `json:"b"`
+	C *int64 `json:"c"`
+	D *int64 `json:"d"`
+}
+
 type MemberA struct {
 	N int64 `json:"n"`
 }
@@ -102,6 +111,8 @@ func prop(t schema.Type, def *string) *schema.PropertySchema {
 func disp(name string) *schema.DisplayValue {
 	return schema.NewDisplayValue(schema.PointerTo(name), nil, nil)
 }
+
+func intMax10() schema.Type { return schema.NewIntSchema(nil, schema.PointerTo(int64(10)), nil) }
 
 func intT() schema.Type { return schema.NewIntSchema(nil, nil, nil) }
 
@@ -150,6 +161,7 @@ var ckinds = map[string]kindInfo{
 	"objmap":        {"objmap", []string{"fresh", "rebuilt"}},
 	"plugin_input":  {"objmap", []string{"rebuilt"}}, // step input of a schema returned by UnserializeSchema
 	"objstruct":     {"objstruct", []string{"fresh", "rebuilt"}},
+	"objdep":        {"objdep", []string{"fresh", "rebuilt"}},
 	"mapcoll":       {"mapcoll", []string{"fresh", "rebuilt"}},
 	"anycoll":       {"mapcoll", []string{"fresh", "rebuilt"}},
 	"oneof_map":     {"oneof", []string{"fresh", "rebuilt"}},
@@ -224,18 +236,25 @@ func buildScope(ckind string) (*schema.ScopeSchema, error) {
 			"s": prop(schema.NewRefSchema("inner", nil), schema.PointerTo(`{"a":5}`)),
 		})
 		return schema.NewScopeSchema(root, inner), nil
+	case "objdep":
+		return schema.NewScopeSchema(schema.NewStructMappedObjectSchema[Dep]("root", map[string]*schema.PropertySchema{
+			"a": schema.NewPropertySchema(intT(), nil, false, nil, nil, []string{"b"}, nil, nil),
+			"b": prop(intT(), nil),
+			"c": prop(schema.NewIntSchema(nil, schema.PointerTo(int64(10)), nil), nil),
+			"d": schema.NewPropertySchema(intT(), nil, false, nil, []string{"b"}, nil, nil, nil),
+		})), nil
 	case "mapcoll":
 		return wrap(schema.NewMapSchema(intT(), schema.NewStringSchema(nil, nil, nil), nil, nil)), nil
 	case "anycoll":
 		return wrap(schema.NewAnySchema()), nil
 	case "oneof_map":
-		a := schema.NewObjectSchema("A", map[string]*schema.PropertySchema{"n": prop(intT(), nil)})
+		a := schema.NewObjectSchema("A", map[string]*schema.PropertySchema{"n": prop(intMax10(), nil)})
 		b := schema.NewObjectSchema("B", map[string]*schema.PropertySchema{"m": prop(intT(), nil)})
 		return wrap(schema.NewOneOfStringSchema[any](map[string]schema.Object{
 			"a": schema.NewRefSchema("A", nil), "b": schema.NewRefSchema("B", nil),
 		}, discField, false), a, b), nil
 	case "oneof_struct":
-		a := schema.NewStructMappedObjectSchema[MemberA]("A", map[string]*schema.PropertySchema{"n": prop(intT(), nil)})
+		a := schema.NewStructMappedObjectSchema[MemberA]("A", map[string]*schema.PropertySchema{"n": prop(intMax10(), nil)})
 		b := schema.NewStructMappedObjectSchema[MemberB]("B", map[string]*schema.PropertySchema{"m": prop(intT(), nil)})
 		return wrap(schema.NewOneOfStringSchema[any](map[string]schema.Object{
 			"a": schema.NewRefSchema("A", nil), "b": schema.NewRefSchema("B", nil),
@@ -321,7 +340,7 @@ func build(ckind, origin string) (*instance, error) {
 	}
 	in.scope = s
 	switch info.kind {
-	case "objmap", "objstruct", "meta":
+	case "objmap", "objstruct", "objdep", "meta":
 		in.target = s
 	default:
 		in.target = targetOf(s)
